@@ -6,6 +6,11 @@ mkdir -p extracted
 cd extracted
 coqc -Q ../../coq Apd -w -extraction-opaque-accessed,-extraction-reserved-identifier ../../coq/Extract.v >/dev/null
 rm -f ../../coq/Extract.vo ../../coq/Extract.glob ../../coq/.Extract.aux ../../coq/Extract.vok ../../coq/Extract.vos
+coqc -Q ../../coq Apd -w -extraction-opaque-accessed,-extraction-reserved-identifier,-extraction-axiom-to-realize ../../coq/ExtractTr.v >/dev/null
+rm -f ../../coq/ExtractTr.vo ../../coq/ExtractTr.glob ../../coq/.ExtractTr.aux ../../coq/ExtractTr.vok ../../coq/ExtractTr.vos
 cd ..
 ocamlfind ocamlopt -O2 -w -a -I extracted extracted/apd_model.mli extracted/apd_model.ml driver.ml -o ../bin/driver 2>/dev/null \
   || ocamlfind ocamlopt -w -a -I extracted extracted/apd_model.mli extracted/apd_model.ml driver.ml -o ../bin/driver
+# the C12 judge (verified interval arithmetic on Z), a separate binary
+ocamlfind ocamlopt -O2 -w -a -I extracted extracted/apd_transc.mli extracted/apd_transc.ml driver_tr.ml -o ../bin/driver_tr 2>/dev/null \
+  || ocamlfind ocamlopt -w -a -I extracted extracted/apd_transc.mli extracted/apd_transc.ml driver_tr.ml -o ../bin/driver_tr
